@@ -46,7 +46,7 @@ TDirPost == Is("dir.removeprev") /\ Eat /\ files = nreq /\ UNCHANGED <<vars, rbl
 (* what the identity directory resolves to must be what the model has on disk *)
 TFiles == /\ Is("files") /\ Eat /\ UNCHANGED <<vars, rbl, mark>>
           /\ IF files = 0 THEN Ev.set = "none"
-             ELSE Ev.set = "set" /\ Ev.cert = files /\ Ev.key = files /\ Ev.ca = fca
+             ELSE Ev.set = "set" /\ Ev.cert = files /\ Ev.key = files /\ Ev.ca = fca /\ Ev.chain = <<files, IntId>>
 TReadyCall == /\ Is("ready_call") /\ Eat /\ UNCHANGED <<rbl, mark>>
               /\ IF Ev.pr <= NReady THEN ReadyBegin(Ev.pr) ELSE ConsStart(NGet + (Ev.pr - NReady))
 TReadyRet == Is("ready_ret") /\ Eat /\ ~Ev.err /\ ReadyRet(Ev.pr) /\ UNCHANGED <<rbl, mark>>
@@ -62,7 +62,7 @@ TRunRet == /\ Is("run_ret") /\ Eat /\ UNCHANGED <<rbl, mark>>
            /\ IF Ev.err THEN FailRet ELSE pcRun \in {"wait", "retry"} /\ UNCHANGED vars
 TAdv == Is("adv") /\ Eat /\ StepTo(Ev.now) /\ UNCHANGED <<rbl, mark>>
 (* the harness saw every goroutine blocked and none held at a gate: nothing may be enabled in the model either *)
-TQuiescent == Is("quiescent") /\ Eat /\ Quiet /\ UNCHANGED <<vars, rbl, mark>>
+TQuiescent == Is("quiescent") /\ Eat /\ Quiet /\ (Ev.served < 0 \/ Ev.served = cur) /\ UNCHANGED <<vars, rbl, mark>>
 TStuck == /\ Is("stuck") /\ Eat /\ UNCHANGED <<vars, rbl, mark>>
           /\ Ev.n = Cardinality({r \in 1..NReady : pcR[r] = "wait"}) + Cardinality({g \in GIds : pcG[g] \notin {"idle", "done"}})
 TIgnore == HasNext /\ Ev.ev \in {"cancel", "issuer.answer"} /\ Eat /\ UNCHANGED <<vars, rbl, mark>>
